@@ -109,10 +109,10 @@ register('C18', [
 
 register('C01', [
     'kernel-level claim: every gate an insertion has to pass (time windows + shift, capacity, distance/duration limits) is decided on tours of bounded length; solver runs are not explored',
-    'single-task jobs (no multi-job root link), one route interval (no reloads), one place x one time window per target',
+    'rule kernels on bounded templates: tours of <= 2 (quick) / 4 (thorough) jobs; skills over a universe of 2/3 skills; groups / shared resource over 2-3 routes; strict locks of 1-3 jobs with 0-2 other jobs before / after',
 ], [
     'the end-to-end quantifier (all problems x configurations x schedules x termination moments): needs the solver to run',
-    'skills/groups/compatibility/tour-order/locked-jobs (string-keyed std hash containers), breaks, reloads, recharge, goal assembly in goal_reader.rs, all search operators',
+    'vehicle breaks, recharge, sequence (non-strict) locks, goal assembly in goal_reader.rs, all search operators (skills, groups, compatibility, task order, strict locks, reload resources ARE decided: hash containers as association lists / sets with symbolic membership)',
 ])
 register('C03', [
     'schedules, tour totals and the cost fold are decided against an independent simulation; the pragmatic writer create_tour is executed from the MIR of vrp-pragmatic together with the MIR of vrp-core (cross-crate calls switch engines)',
